@@ -447,6 +447,7 @@ def gen_wide(out):
     for n in (2, 7, 12):
         L.append('  MAKE_CONST_MOCK%d(cw%d, int(%s));' % (n, n, ', '.join(TYPES[m] for m in modes_for(n, 3))))
     L.append('  MAKE_MOCK15(rw15, int&(%s));' % ', '.join(['int&'] * 15))
+    L.append('  MAKE_MOCK2(wt, void(Tracked, Tracked&&));')
     L.append('  MAKE_CONST_MOCK12(rp12, const int*(%s));' % ', '.join(['const int&'] * 12))
     L.append('};')
     L.append('struct MockIWide : trompeloeil::mock_interface<IWide> {')
@@ -475,7 +476,7 @@ def gen_wide(out):
             else:
                 decl.append('  std::unique_ptr<Tracked> a%d(new Tracked(%s)); R.mode[%d] = WM_UPTR; R.want_val[%d] = a%d->v; R.want_addr[%d] = a%d.get();' % (k, v, k, k, k, k, k)); callargs.append('std::move(a%d)' % k)
         body += decl
-        wps = ', '.join('sim::wp(_%d)' % k for k in range(1, n + 1))
+        wps = ', '.join(('sim::wpr(_%d)' if modes[k - 1] == 'ref' else 'sim::wp(_%d)') % k for k in range(1, n + 1))
         wild = ', '.join(['trompeloeil::_'] * n)
         stmt = 'auto e = NAMED_REQUIRE_CALL(m, %s(%s))' % (fname, wild)
         stmt += '.WITH(sim::wide_log(rp, 0%s))' % (', ' + wps if n else '')
@@ -528,6 +529,16 @@ def gen_wide(out):
         L += emit_ident_case(cid, 'rw15', 15, k, False); cid += 1
     for k in range(1, 13):
         L += emit_ident_case(cid, 'rp12', 12, k, True); cid += 1
+    # THROW(std::move(_k)): a by-value and an rvalue-reference argument are moved into the exception, not copied
+    for k in (1, 2):
+        L += ['static void wide_case_%d(WideRun& R, int base) {' % cid,
+              '  MockWide m; R.n = 2; R.name = "wt"; R.ident = -1;',
+              '  auto e = NAMED_REQUIRE_CALL(m, wt(trompeloeil::_, trompeloeil::_)).THROW(std::move(_%d));' % k,
+              '  long c0 = Tracked::copies; bool intact = false;',
+              '  try { m.wt(Tracked(base), Tracked(base + 1)); } catch (Tracked& t) { intact = t.v == base + %d; }' % (k - 1),
+              '  R.copies = Tracked::copies - c0; R.satisfied = intact && e->is_satisfied();',
+              '}']
+        cases.append((cid, 2)); cid += 1
     L.append('const int wide_case_count = %d;' % cid)
     L.append('void wide_run(int c, WideRun& R, int base) {')
     L.append('  switch (c) {')
